@@ -12,6 +12,7 @@ INVARIANT OthersUntouched
 INVARIANT KeepSetExact
 INVARIANT KeepOrder
 INVARIANT MapWellFormed
+INVARIANT MapNames
 INVARIANT FullyExpanded
 INVARIANT GenStackDiscipline
 INVARIANT GenDepthBounded
